@@ -398,7 +398,10 @@ fn read_std(reader: &mut BinReader, emitter: &impl Emitter, format: &dyn FileFor
             })?;
             Ok((key, value))
         }).collect::<ReadResult<IndexMap<_, _>>>()?;
-    assert_eq!(num_quads, objects.values().map(|x| x.quads.len()).sum::<usize>());
+    let actual_num_quads = objects.values().map(|x| x.quads.len()).sum::<usize>();
+    if num_quads != actual_num_quads {
+        emitter.emit(warning!("unexpected value of quad count in header: {num_quads}, expected {actual_num_quads}")).ignore();
+    }
 
     let instances = {
         reader.seek_to(start_pos + instances_offset)?;
@@ -742,7 +745,7 @@ impl LanguageHooks for StdHooks06 {
         (dest_offset / 20) as u32
     }
     fn decode_label(&self, _cur: raw::BytePos, bits: raw::RawDwordBits) -> raw::BytePos {
-        (bits * 20) as u64
+        bits as u64 * 20
     }
 
     fn instr_format(&self) -> &dyn InstrFormat { self }
